@@ -5,7 +5,8 @@ from ..roles import P_, param, INFO_TY, ENV_TY, AnchorMissing
 from ..mir import generic_path
 from . import c07, c02
 
-HOP_VARIANT = "haloswap::router::ExecuteMsg::ExecuteSwapOperation"
+def HOP_VARIANT(ctx):
+    return ctx.N.exec_enum("router") + "::ExecuteSwapOperation"
 
 
 def import_instances(ctx, inst, mod, ids, prefix):
@@ -140,10 +141,10 @@ def run(ctx):
     import_instances(ctx, r3, c02, {"C02.R6", "C02.R8"}, "C13.R3")
     acc = rr.acceptor
     body = acc.body
-    ops_i = common.param_index_of_type(acc, r"^std::vec::Vec<haloswap::router::SwapOperation>$")
+    ops_i = common.param_index_of_type(acc, r"^std::vec::Vec<%s>$" % ctx.N.rx("SwapOperation"))
 
     # ---- R2 -------------------------------------------------------------------------------------------
-    hops = [(fn, b, i, v, span) for (fn, b, i, adt, var, v, span) in common.message_sites(P) if adt + "::" + var == HOP_VARIANT]
+    hops = [(fn, b, i, v, span) for (fn, b, i, adt, var, v, span) in common.message_sites(P) if adt + "::" + var == HOP_VARIANT(ctx)]
     if len(hops) == 1 and not (hops[0][0].kind == "closure" and hops[0][0].parent == acc.path):
         loop_form_r2(ctx, r2, rr, hops[0], ops_i)
     elif len(hops) != 1:
@@ -289,7 +290,7 @@ def run(ctx):
     for b, p, fr, t in P.calls(acc):
         if roles.is_workspace_fn(P, p):
             vf = P.fn(p) or P.fn(generic_path(p))
-            if vf.sig and re.search(r"fn\(&'?\w* ?\[haloswap::router::SwapOperation\]\) -> std::result::Result<\(\), cosmwasm_std::StdError>", vf.sig):
+            if vf.sig and re.search(r"fn\(&'?\w* ?\[%s\]\) -> std::result::Result<\(\), cosmwasm_std::StdError>" % ctx.N.rx("SwapOperation"), vf.sig):
                 validators.append((b, vf))
     if len(validators) != 1:
         r4.fail("C13.R4:validator-anchor", acc.path, acc.span, "anchor-missing: route validator call (fn(&[SwapOperation]) -> StdResult<()>): %d found" % len(validators))
@@ -369,8 +370,8 @@ def run(ctx):
                 r4.fail("C13.R4:validator-exit", vf.path, vf.span, "validator does not reject routes whose number of dangling output assets differs from 1")
 
     # ---- R5 wire compatibility ---------------------------------------------------------------------------------------
-    hook = P.adts.get("haloswap::pair::Cw20HookMsg")
-    exm = P.adts.get("haloswap::pair::ExecuteMsg")
+    hook = P.adts.get(ctx.N.hook_enum("pair"))
+    exm = P.adts.get(ctx.N.exec_enum("pair"))
     if not hook or not exm:
         r5.fail("C13.R5:anchor", "-", "-", "anchor-missing: pair message enums")
     else:
